@@ -35,8 +35,8 @@ func c17Object(g *Gen) ap.Item {
 		o.ValueForms = false
 		pv = reflect.ValueOf(g.Struct(rt, o))
 	}
-	pv.Elem().FieldByName("Published").Set(reflect.ValueOf(g.Time(true)))
-	pv.Elem().FieldByName("Updated").Set(reflect.ValueOf(g.Time(true)))
+	pv.Elem().FieldByName("Published").Set(reflect.ValueOf(c17Time(g)))
+	pv.Elem().FieldByName("Updated").Set(reflect.ValueOf(c17Time(g)))
 	if g.Chance(1, 2) {
 		pv.Elem().FieldByName("ID").SetString(string(g.ID()))
 	}
@@ -44,6 +44,18 @@ func c17Object(g *Gen) ap.Item {
 		return pv.Elem().Interface().(ap.Item)
 	}
 	return pv.Interface().(ap.Item)
+}
+
+// instants of the generator, one in five from the far ends: the ordering is by instant over the whole range of
+// time.Time, not only where a count of nanoseconds since 1970 fits 64 bits (1678-2262)
+func c17Time(g *Gen) time.Time {
+	if g.Chance(1, 5) {
+		far := []time.Time{time.Date(1, 1, 1, 0, 0, 1, 0, time.UTC), time.Date(1000, 6, 1, 0, 0, 0, 0, time.UTC), time.Date(1677, 9, 21, 0, 12, 43, 0, time.UTC),
+			time.Date(1677, 9, 21, 0, 12, 44, 0, time.UTC), time.Date(1753, 12, 31, 0, 0, 0, 0, time.UTC), time.Date(1754, 8, 31, 0, 0, 0, 0, time.UTC), time.Date(1969, 12, 31, 23, 59, 59, 0, time.UTC),
+			time.Date(2262, 4, 11, 23, 47, 16, 0, time.UTC), time.Date(2262, 4, 11, 23, 47, 17, 0, time.UTC), time.Date(2263, 1, 1, 0, 0, 0, 0, time.UTC), time.Date(9999, 12, 31, 23, 59, 59, 0, time.UTC)}
+		return far[g.Intn(len(far))].In(zones[g.Intn(len(zones))])
+	}
+	return g.Time(true)
 }
 
 func c17Outside(g *Gen) ap.Item {
